@@ -22,7 +22,7 @@ def handle (op : String) (j : Json) : Except String Json := do
       | .ok r => pure (reply (out r))
       | _ => pure (reply (Json.mkObj [("err", Json.str "other")]))
     else
-      pure (reply (out (readValidateT n marker cp mode file k)))
+      pure (reply (out (readValidateR n marker cp mode file k)))
   | "delim_read" =>
     let mode := if (← getStr j "mode") == "carry" then Mode.carry else Mode.seek
     let file ← getNatList j "file"
